@@ -341,3 +341,58 @@ func sortStrings(a []string) {
 }
 
 func timeFromNs(ns int64) time.Time { return time.Unix(0, ns) }
+
+// prepopulate puts older things in the way of an unpack: at some of the paths the archive is going to create there
+// already is an entry - a file with other content and a stale xattr, two such files sharing one inode, a symlink where
+// a file will be, a file where a symlink or device will be, an existing directory with other permissions. Nothing is
+// created at a path the archive does not have, and no file where a directory has to go (unpacking refuses that).
+func prepopulate(c *fw.Case, dst string, want map[string]*treeEntry) int {
+	var paths []string
+	for p := range want {
+		if p != "." {
+			paths = append(paths, p)
+		}
+	}
+	sortStrings(paths)
+	n := 0
+	lastFile := ""
+	for _, p := range paths {
+		if !c.Chance(1, 3, "prior.pick") {
+			continue
+		}
+		full := filepath.Join(dst, p)
+		if err := os.MkdirAll(filepath.Dir(full), 0755); err != nil {
+			continue
+		}
+		e := want[p]
+		switch e.Type {
+		case "dir":
+			if os.Mkdir(full, 0700) == nil {
+				n++
+			}
+		case "file":
+			switch c.Draw(3, "prior.file") {
+			case 0:
+				if os.WriteFile(full, []byte("older content of "+p), 0600) == nil {
+					xattr.LSet(full, "user.stale", []byte("1"))
+					lastFile = full
+					n++
+				}
+			case 1:
+				if lastFile != "" && os.Link(lastFile, full) == nil {
+					n++
+				}
+			case 2:
+				if os.Symlink("somewhere/else", full) == nil {
+					n++
+				}
+			}
+		default: // symlink, char, block
+			if os.WriteFile(full, []byte("a file where something else will be"), 0644) == nil {
+				lastFile = full
+				n++
+			}
+		}
+	}
+	return n
+}
